@@ -101,6 +101,15 @@ PROPS = {
              "non-trivial = the map has at least two segments",
         nontrivial=lambda p: True,
     ),
+    "C09": dict(
+        gens=[tlc("c09", "quick"), tlc("c09full", "thorough"), rand("combined", 500, "quick"), rand("combined", 30000, "thorough")],
+        tv_props=["C09"],
+        must_fire=["C09.compose_columns", "C09.compose_lines"],
+        rule="SourceMapSource with an inner map: every (outer map, inner map) pair of the scope, original source given or "
+             "taken from the outer sourcesContent, remove_original_source, both column settings; non-trivial = an outer "
+             "segment points into the inner source",
+        nontrivial=lambda p: True,
+    ),
     "C11": dict(
         gens=[tlc("c02"), rand("stream_ascii", 600, "quick"), rand("stream_ascii", 30000, "thorough")],
         tv_props=["C11"],
